@@ -28,6 +28,8 @@ Requests (answers):
   origin <local> <peers> <sender> <publisher> <index> -> ok | err:<class>
   shardfor <local> <peers> <publisher> -> ok <index> | err:<class>
   vreset <cfg> <local> <peers>       -> ok | err:<class>        (new scheduler, no validators)
+  sorigin <sender> <publisher> <index> -> ok | err:<class>      (origin / shardfor on the session's scheduler)
+  sshardfor <publisher>              -> ok <index> | err:<class>
   deliver <sigok 0|1> <committee> <publisher> <root> <proof> <sig> <index> <shards> <nonce> <sender>
         -> ok | err:<class>       (stateful: routes + validators kept between requests)
 <cfg> is five characters 0/1: unpadGuard rootFromPresent shardingLeafProto validatorLeafProto nonceSet.
@@ -40,6 +42,26 @@ partial def termToString : HTerm → String
   | .leaf d => "L" ++ bytesToHex d
   | .raw b => "R" ++ bytesToHex b
   | .node l r => "N(" ++ termToString l ++ "," ++ termToString r ++ ")"
+
+/-- Fast hex decoding for long tokens (the shared `hexToBytes?` works on `List Char`). -/
+def nibble? (c : UInt8) : Option UInt8 :=
+  if 48 ≤ c && c ≤ 57 then some (c - 48)
+  else if 97 ≤ c && c ≤ 102 then some (c - 87)
+  else if 65 ≤ c && c ≤ 70 then some (c - 55)
+  else none
+
+def fastHexAux (b : ByteArray) : Nat → List UInt8 → Option (List UInt8)
+  | 0, acc => some acc
+  | 1, _ => none
+  | n + 2, acc =>
+    match nibble? (b.get! n), nibble? (b.get! (n + 1)) with
+    | some hi, some lo => fastHexAux b n ((hi <<< 4 ||| lo) :: acc)
+    | _, _ => none
+
+def fastHex? (s : String) : Option Bytes :=
+  if s == "-" then some [] else
+  let b := s.toUTF8
+  fastHexAux b b.size []
 
 def isHexChar (c : Char) : Bool := (hexVal? c).isSome || c == '-'
 
@@ -73,7 +95,7 @@ def listOf? {α : Type} (sep : String) (p : String → Option α) (s : String) :
 def terms? (s : String) : Option (List HTerm) := listOf? ";" term? s
 /-- A list of byte strings `hex,hex,…`; `-` is the empty LIST, `.` stands for an empty byte string
 inside a list. -/
-def hexItem? (s : String) : Option Bytes := if s == "." then some [] else hexToBytes? s
+def hexItem? (s : String) : Option Bytes := if s == "." then some [] else fastHex? s
 def hexList? (s : String) : Option (List Bytes) := listOf? "," hexItem? s
 
 def hexItem (b : Bytes) : String := if b.isEmpty then "." else bytesToHex b
@@ -134,11 +156,11 @@ def step (s : St) (line : String) : St × String :=
     | some n => if n < 2 ^ 64 then (s, bytesToHex (putUvarint (UInt64.ofNat n))) else (s, "bad-op")
     | none => (s, "bad-op")
   | ["pad", k, h] =>
-    match k.toNat?, hexToBytes? h with
+    match k.toNat?, fastHex? h with
     | some k, some b => (s, outStr bytesToHex (padGo b k))
     | _, _ => (s, "bad-op")
   | ["unpad", g, h] =>
-    match hexToBytes? h with
+    match fastHex? h with
     | some b =>
       if g == "0" then (s, outStr bytesToHex (unpad false b))
       else if g == "1" then (s, outStr bytesToHex (unpad true b))
@@ -153,7 +175,7 @@ def step (s : St) (line : String) : St × String :=
     | some l => (s, bytesToHex (marshalShards l))
     | none => (s, "bad-op")
   | ["split", k, p, h] =>
-    match k.toNat?, p.toNat?, hexToBytes? h with
+    match k.toNat?, p.toNat?, fastHex? h with
     | some k, some p, some b =>
       (s, outStr hexList (match encodeData (rsOracle [] none) b k p with
         | .ok l => .ok (l.take k) | .err e => .err e | .panic => .panic))
@@ -170,7 +192,7 @@ def step (s : St) (line : String) : St × String :=
     | _, _, _, _ => (s, "bad-op")
   | ["create", c, k, p, nonce, committee, publisher, msg, parity] =>
     match cfg? c, k.toNat?, p.toNat?, nonce.toNat?, hexToBytes? committee, hexToBytes? publisher,
-          hexToBytes? msg, hexList? parity with
+          fastHex? msg, hexList? parity with
     | some c, some k, some p, some nonce, some committee, some publisher, some msg, some parity =>
       let r := createUnits c termFns (rsOracle parity none) (sigOracle true) committee publisher nonce msg k p
       (s, outStr (fun us =>
@@ -214,6 +236,20 @@ def step (s : St) (line : String) : St × String :=
         | .error e => (s, "err:" ++ e.name)
       | .error e => (s, "err:" ++ schedErr e)
     | _, _, _ => (s, "bad-op")
+  | ["sorigin", sender, publisher, idx] =>
+    match s.sched, hexToBytes? sender, hexToBytes? publisher, idx.toNat? with
+    | some sc, some sender, some publisher, some idx =>
+      match sc.validateOrigin sender publisher idx with
+      | .ok () => (s, "ok")
+      | .error e => (s, "err:" ++ e.name)
+    | _, _, _, _ => (s, "bad-op")
+  | ["sshardfor", publisher] =>
+    match s.sched, hexToBytes? publisher with
+    | some sc, some publisher =>
+      match sc.shardIndexFor publisher with
+      | .ok i => (s, s!"ok {i}")
+      | .error e => (s, "err:" ++ e.name)
+    | _, _ => (s, "bad-op")
   | ["vreset", c, loc, peers] =>
     match cfg? c, hexToBytes? loc, hexList? peers with
     | some c, some loc, some peers =>
